@@ -398,12 +398,18 @@ func (f *fidRef) renameChildTo(oldName string, target *fidRef, newName string) {
 		// Replace the previous (now deleted) path node.
 		target.pathNode.addPathNodeFor(newName, origPathNode)
 		// Call Renamed on all children, then drop the references taken
-		// for the duration of the callbacks.
+		// for the duration of the callbacks. They are dropped by a
+		// deferred function so that a panic in one of the callbacks
+		// (recovered per request) does not leak them: a leaked
+		// reference would keep the File, and every File above it,
+		// from ever being closed. No childMu is held at that point.
 		var held []*fidRef
+		defer func() {
+			for _, ref := range held {
+				ref.DecRef()
+			}
+		}()
 		notifyNameChange(origPathNode, &held)
-		for _, ref := range held {
-			ref.DecRef()
-		}
 	}
 }
 
